@@ -125,8 +125,8 @@ def pairing(model, res):
 
 
 def interface_continuity(model, res):
-    """DSD cylindrical expansion: t_mid equals the inner-material expression at r = r_2,
-    and the outer-material expression at r = r_2 equals t_mid."""
+    """DSD cylindrical expansion: the inner- and outer-material expressions agree at r = r_2 (continuity
+    across the material interface) and the inner one is t_d at r = r_1; no reliance on local names."""
     cls = model.get_class(CLASSES[3])
     runm = cls.find_method('_run')
     chain = None
@@ -145,19 +145,26 @@ def interface_continuity(model, res):
     stores = {id(n.origin[1]): n for n in b.trace if n.kind == 'store' and n.origin}
     inner = stores.get(id(inner_t[-1]))
     outer = stores.get(id(outer_t[-1]))
-    rpt = tmid = None
+    rpt = None
     for func, tnode, vnode in b.assign_log:
         if func is runm and tnode.id == 'rpt':
             rpt = vnode
-        if func is runm and tnode.id == 't_mid':
-            tmid = vnode
-    if inner is None or outer is None or rpt is None or tmid is None:
-        raise AnalysisError('anchors (inner/outer store, rpt, t_mid) not found in the value graph')
-    for label, node in (('inner material at r = r_2 vs t_mid', inner.args[2]), ('outer material at r = r_2 vs t_mid', outer.args[2])):
+    if inner is None or outer is None or rpt is None:
+        raise AnalysisError('anchors (inner / outer store, rpt) not found in the value graph')
+    h = b.heap.get(objn.val.oid, {})
+    checks = [('inner material at r = r_2 == outer material at r = r_2', inner.args[2], 'r_2', outer.args[2], 'r_2'),
+              ('inner material at r = r_1 == t_d (the detonation time on the detonator circle)', inner.args[2], 'r_1', None, None)]
+    for label, n1, at1, n2, at2 in checks:
         ev = NFEval(keys)
-        ev.memo[rpt.nid] = ev.atom('param:r_2')
-        got = ev.nf(node)
-        want = ev.nf(tmid)
+        ev.memo[rpt.nid] = ev.atom('param:%s' % at1)
+        got = ev.nf(n1)
+        if n2 is not None:
+            ev2 = NFEval(keys)
+            ev2.sums = ev.sums
+            ev2.memo[rpt.nid] = ev2.atom('param:%s' % at2)
+            want = ev2.nf(n2)
+        else:
+            want = ev.atom('param:t_d')
         res.obligations += 1
         res.evaluations += 1
         res.nontrivial += 1
@@ -166,9 +173,9 @@ def interface_continuity(model, res):
             res.sample({'rule': 'C13.interface-continuity', 'check': label, 'normal_form': want.key()[:140]})
         else:
             res.add(Finding(PROP, 'C13.interface-continuity', runm.module.relpath, runm.qualname, label,
-                            "CylindricalExpansion: the burn time is not continuous at the material interface by construction "
-                            "(%s): %s versus %s" % (label, got.key()[:200] if got is not NAN else 'NaN', want.key()[:200]),
-                            line=getattr(node.origin[1], 'lineno', 0), construct=node.src[:100]))
+                            "CylindricalExpansion: the burn time is not continuous by construction (%s): %s versus %s"
+                            % (label, got.key()[:200] if got is not NAN else 'NaN', want.key()[:200] if want is not NAN else 'NaN'),
+                            line=getattr(n1.origin[1], 'lineno', 0), construct=n1.src[:100]))
 
 
 def run(model, tier):
@@ -177,9 +184,9 @@ def run(model, tier):
         'Three structural necessary conditions. (i) Dimension inference restricted to the four burn-time solvers: every '
         'burn time is a time with detonation speeds L/T (a wrong power of D or R is a type error). (ii) Kenamond2: each '
         'straight-ray term pairs detonator position dets[i] with its own detonation time t_d[i] (5 terms), otherwise the '
-        'burn time at a detonator is not its detonation time. (iii) DSD cylindrical expansion: the outer-material branch '
-        'starts from t_mid whose normal form equals the inner-material expression at r = r_2, and the outer expression '
-        'at r = r_2 reduces to t_mid: continuity across the material interface by construction. The eikonal equation, '
+        'burn time at a detonator is not its detonation time. (iii) DSD cylindrical expansion: the inner- and outer-material '
+        'expressions have equal normal forms at r = r_2 (log(1) = 0), and the inner one reduces to t_d at r = r_1: continuity '
+        'across the material interface and at the detonator circle by construction. The eikonal equation, '
         'continuity across the Kenamond2 sphere and the Kenamond3 shadow boundary and the min/max composition are '
         'numeric and not decided; the admissibility guards are decided under C20.')
     res.rule_text = 'instances: dimension constraints, detonator/time pairs, interface identities'
